@@ -594,11 +594,11 @@ func (x *Exec) Audit(b *Backend) (res E) {
 			case bytes.HasPrefix(rest, []byte("i:")):
 				rest = rest[2:]
 				semi := bytes.IndexByte(rest, ';')
-				if semi < 0 || len(rest) < semi+1+36 {
+				if semi < 0 {
 					junk = append(junk, fmt.Sprintf("%x", key))
 					continue
 				}
-				c.entries = append(c.entries, rawEntry{field: string(rest[:semi]), id: string(key[len(key)-36:]), key: key})
+				c.entries = append(c.entries, rawEntry{field: string(rest[:semi]), key: key})
 			default:
 				junk = append(junk, fmt.Sprintf("%x", key))
 			}
@@ -620,12 +620,35 @@ func (x *Exec) Audit(b *Backend) (res E) {
 			docs = append(docs, []interface{}{B(id), c.docRaw[id]})
 		}
 		entries := make([]interface{}, 0, len(c.entries))
+		// whose entry is it?  Ids have several lengths: the entry of document id is the key the index
+		// code builds for the document's current value of the field; an entry that is nobody's
+		// current one is attributed to the longest stored id it ends with, else to its last 36 bytes.
+		current := map[string]string{}
+		fields := map[string]bool{}
+		for _, en := range c.entries {
+			fields[en.field] = true
+		}
+		for f := range fields {
+			for _, id := range c.docIds {
+				if d := c.docs[id]; d != nil {
+					if want, err := indexKey(name, f, d.Get(f), id); err == nil {
+						current[string(want)] = id
+					}
+				}
+			}
+		}
 		for _, en := range c.entries {
 			cur := 0
-			if d := c.docs[en.id]; d != nil {
-				want, err := indexKey(name, en.field, d.Get(en.field), en.id)
-				if err == nil && bytes.Equal(want, en.key) {
-					cur = 1
+			if id, ok := current[string(en.key)]; ok {
+				en.id, cur = id, 1
+			} else {
+				for _, id := range c.docIds {
+					if len(id) > len(en.id) && bytes.HasSuffix(en.key, []byte(id)) {
+						en.id = id
+					}
+				}
+				if en.id == "" {
+					en.id = string(en.key[max(0, len(en.key)-36):])
 				}
 			}
 			entries = append(entries, []interface{}{B(en.field), B(en.id), cur})
